@@ -446,7 +446,8 @@ def natural_failures(ctx, nets):
 
 
 def sessions(ctx, rng, nets, n):
-    """several calculations in a row on ONE object, some of them interrupted; the tables must equal the initial ones"""
+    """several calculations in a row on ONE object, some of them interrupted; after every single one the tables must equal
+    the initial ones (the first deviation is attributed to the calculation that caused it)"""
     names = list(CALCS)
     for _ in range(n):
         base = rng.choice(nets)
@@ -457,13 +458,14 @@ def sessions(ctx, rng, nets, n):
         for _ in range(rng.randint(3, 6)):
             calc = rng.choice(names)
             mode = rng.choice(["ok", "ok", "function", "natural"])
+            raised = None
             if mode == "natural":
-                nm = rng.choice([x for x in NATURAL if x not in PREPARE])
-                ops.append(nm)
+                calc = rng.choice([x for x in NATURAL if x not in PREPARE])
+                ops.append(calc)
                 try:
-                    _quiet(NATURAL[nm], net)
-                except Exception:
-                    pass
+                    _quiet(NATURAL[calc], net)
+                except Exception as e:
+                    raised = type(e).__name__
             elif mode == "function":
                 with J.Patch() as p:
                     try:
@@ -476,16 +478,17 @@ def sessions(ctx, rng, nets, n):
                 with J.Patch(pt):
                     try:
                         _quiet(CALCS[calc], net)
-                    except Exception:
-                        pass
+                    except Exception as e:
+                        raised = type(e).__name__
             else:
                 ops.append(calc)
                 try:
                     _quiet(CALCS[calc], net)
-                except Exception:
-                    pass
-        case = {"calc": "session", "ops": ops, "net": pp.to_json(base)}
-        ok = judge(ctx, guard, s0, net, case, ["session"])
+                except Exception as e:
+                    raised = type(e).__name__
+            case = {"calc": calc, "session": list(ops), "net": pp.to_json(base)}
+            if not judge(ctx, guard, s0, net, case, ["session"], raised):
+                break
         ctx.case({"session": ops}, nontrivial=len(base.dcline) > 0)
         ctx.count("sessions")
 
